@@ -1,5 +1,6 @@
 """C07 - cmp is a total preorder over mixed types; sort / dictable.sort follow it stably."""
-import datetime, json, os, re
+import datetime, json, os, re, random, zlib
+from harness.core import Machinery
 import numpy as np, pandas as pd
 from harness.enc import IdMap
 from harness.x_order import xtag as tag, xuntag as untag   # enc.tag / untag + numbers beyond 2**31 (OrderBig)
@@ -21,6 +22,7 @@ def universe():
     d1, d2 = datetime.datetime(2000, 1, 1), datetime.datetime(2000, 1, 1, 1, 0, 0, 5)
     sc = [None, True, False, np.bool_(True), 0, 1, 2, -1, np.int64(1), np.int32(2), 1.0, 2.5, -0.5, np.float64(1.0),
           np.float32(2.5), nan1, nan2, nan3, np.float32('nan'), np.float16('nan'), np.float32(1.0), float('inf'), float('-inf')] + STRS[:7] + [d1, d2, datetime.datetime(1999, 12, 31, 23, 59, 59)]
+    sc += [datetime.date(2000, 1, 1), datetime.date(1999, 12, 31), datetime.date(2000, 1, 2), datetime.datetime(2000, 1, 2), np.float64(2.5), np.int64(2)]      # datetime.date objects (tag "date")
     do1 = {'a': 1, 'b': 2}; do2 = {}; do2['b'] = 1; do2['a'] = 2     # same keys, other insertion order, values crossing
     do3 = {}; do3['k'] = 2; do3['j'] = 1
     co = [do1, do2, do3, (np.float32('nan'), 1), (True,), (False,), (0,), [True], [1], (True, 'a'), (1, 'a'), {'k': True}, {'k': 0}, {'k': False},
@@ -28,7 +30,8 @@ def universe():
           (1, 2), (1, nan1), (1, None), (nan1, 1), (nan2, 1), ('a', 1), (None, None), (2, 1), (1.0, 2),
           [1, 2], [1, 'a'], [None, 'a'], ['a', 'b'],
           {'k': 1}, {'k': nan1}, {'k': None}, {'j': 1}, {'k': 'a'}, {'j': 1, 'k': 2}, {'j': 1, 'k': nan1}, {'j': None, 'k': 2},
-          ((1,), 2), ((nan1,), 2), ((1,), None), [[1], [2]], [(1, 2), (1, 3)], (1, 2, 3), (1, 2, nan1), (d1, 1), (d2, 1), (d1, 'a')]
+          ((1,), 2), ((nan1,), 2), ((1,), None), [[1], [2]], [(1, 2), (1, 3)], (1, 2, 3), (1, 2, nan1), (d1, 1), (d2, 1), (d1, 'a'),
+          (datetime.date(2000, 1, 1), 1), (datetime.date(2000, 1, 2),), [datetime.date(1999, 12, 31)], {'k': datetime.date(2000, 1, 1)}, (np.int64(2), 1), [np.float64(2.5)]]
     return sc + co + big_universe()
 
 
@@ -50,6 +53,17 @@ def big_universe():
     co = [(BIG,), (BIG + 1,), (float(BIG),), [BIG + 1], [float(BIG)], {'k': BIG + 1}, {'k': float(BIG)}, {'k': BIG}, (BIG + 1, 1), (float(BIG), 2), (BIG, 2),
           ((BIG + 1,), None), (1e300, 'a'), [5e-324], (-BIG - 1, 0), (-float(BIG), 0), (10 ** 400,), [2 ** 1024], {'k': 10 ** 400}, (10 ** 400 + 1, 1), (np.uint8(1),)]
     return ints + flts + nps + beyond + co
+
+
+def set_universe(vals):
+    def special(v):
+        return type(v).__module__ == 'numpy' or (isinstance(v, datetime.date) and not isinstance(v, datetime.datetime))
+    fixed = [i + 1 for i, v in enumerate(vals) if special(v)][:14] + [i + 1 for i, v in enumerate(vals) if isinstance(v, tuple) and v and special(v[0])][:3]
+    plain = [None, 1, 2, 1.0, 2.5, 'a', datetime.datetime(2000, 1, 1), datetime.datetime(2000, 1, 2)]
+    for w in plain:
+        fixed.append(next(i + 1 for i, v in enumerate(vals) if type(v) is type(w) and v == w))
+    nan = next(i + 1 for i, v in enumerate(vals) if type(v) is float and v != v)
+    UNI['vals'] = vals; UNI['fixed'] = sorted(set(fixed + [nan]))
 
 
 def matrix_obs(ctx, vals):
@@ -150,12 +164,66 @@ def matrix2_obs(ctx, vals):
     return path, tags, M, [{'kind': 'cmprow2', 'i': i + 1} for i in range(len(vals))]
 
 
+class Bare(object):
+    """a bare object: no order, no length - outside the statement's universe"""
+
+
+UNI = {}      # the concrete cmp universe of this run (vals, sample indices that are always part of a cmps step)
+
+
+def np_real(v):
+    """the numpy realisation of a number (rendering only: the abstract value is the same)"""
+    if isinstance(v, bool) or v is None: return v
+    if isinstance(v, int): return np.int64(v)
+    if isinstance(v, float): return np.float64(v)
+    return v
+
+
+def raising_call(how, d):
+    """every way cmp / Cmp / sort / dictable.sort legitimately raise (OrderSess.RaiseStep); d = the heap table for the table ways"""
+    if how == 'cmp_complex': return cmp(1j, 2j)
+    if how == 'cmp_object': return cmp(Bare(), Bare())
+    if how == 'cmp_nested': return cmp((1, [2, 1j]), (1, [2, 2j]))                 # the raise comes from two levels down
+    if how == 'cmp_dictval': return cmp({'k': 1j}, {'k': 2j})
+    if how == 'Cmp_lt': return Cmp(1j) < Cmp(2j)
+    if how == 'Cmp_sorted': return sorted([2j, 1j, 3j], key=Cmp)
+    if how == 'sort_complex': return sort([(1, 2j), (1, 1j), None])
+    if how == 'sort_object': return sort([Bare(), Bare(), 1])
+    if how == 'sort_notiter': return sort(5)
+    if how == 'dsort_complex': return dictable(a=[2j, 1j, 2j], id=[1, 2, 3]).sort('a')
+    if how == 'dsort_object': return dictable(a=[Bare(), None, Bare()], id=[1, 2, 3]).sort('a')
+    if how == 'nocol': return d.sort('zz')
+    if how == 'nocol2': return d.sort('a', 'zz')
+    if how == 'valnocol': return d.sort(zz=[1])
+    if how == 'fnraise': return d.sort(lambda a: 1 // 0)
+    if how == 'fnnoarg': return d.sort(lambda zz: zz)
+    if how == 'fncomplex': return d.sort(lambda a, id: id * 1j)
+    if how == 'unhashable': return d.sort(a=[[1], [2]])
+    if how == 'valnotiter': return d.sort(a=5)
+    raise ValueError(how)
+
+
+def cmps_sample(hist):
+    """indices (1-based) into the universe for one cmps step: the numpy / date realisations and their plain partners always, a few others by the history"""
+    rnd = random.Random(zlib.crc32(json.dumps(hist, sort_keys=True).encode()))
+    rest = [i for i in range(1, len(UNI['vals']) + 1) if i not in UNI['fixed']]
+    return UNI['fixed'] + sorted(rnd.sample(rest, 8))
+
+
 def session_obs(c):
     """replays one sort session TLC generated (spec/OrderSess.tla): renders the seed heap, performs every step through the
     public API and records, per step, the outcome of the call and every live table and list afterwards"""
     ids = IdMap()
     tabs = [rows_table(rows, ids) for rows in c['init']['tabs']]
     lsts = [[untag(v, ids) for v in l] for l in c['init']['lsts']]
+    for k in c.get('np', []):      # numpy realisations of the numbers in these rows / at these positions (the same abstract values)
+        for d in tabs:
+            for col in ('a', 'b'):
+                if col in dict.keys(d) and k <= len(d):
+                    dict.__getitem__(d, col)[k - 1] = np_real(dict.__getitem__(d, col)[k - 1])
+        for l in lsts:
+            if k <= len(l):
+                l[k - 1] = np_real(l[k - 1])
     steps = []
     for st in c['hist']:
         o = {'raised': '', 'out': [], 'colcmp': [], 'again': True, 'adj': [], 'far': []}
@@ -195,31 +263,89 @@ def session_obs(c):
                     getattr(d, st['col'])[st['pos'] - 1] = vals[st['pos'] - 1]      # one element of the column the table holds
             elif op == 'setlst':
                 lsts[st['lst'] - 1][:] = [untag(v, ids) for v in st['vals']]          # in place: the object stays the same
+            elif op == 'raise':
+                raising_call(st['how'], tabs[st['src'] - 1] if st['src'] else None)   # whatever it returns is dropped
+            elif op == 'cmps':
+                idx = cmps_sample(c['hist'])
+                o['idx'] = idx
+                o['M'] = [[safe_cmp(UNI['vals'][i - 1], UNI['vals'][j - 1]) for j in idx] for i in idx]
         except Exception as e:
             o['raised'] = type(e).__name__
         o['tabs'] = [proj_rows(t, ids) for t in tabs]
         o['lsts'] = [[tag(v, ids) for v in l] for l in lsts]
         steps.append(o)
-        if o['raised']:
+        if o['raised'] and op != 'raise':
             break
     steps += [steps[-1]] * (len(c['hist']) - len(steps))      # a step that raised ends the session: the verdict stops there
-    return {'kind': 'session', 'seed': c['seed'], 'dup': c['dup'], 'init': c['init'], 'hist': c['hist'], 'obs': steps}
+    return {'kind': 'session', 'seed': c['seed'], 'dup': c['dup'], 'np': c.get('np', []), 'init': c['init'], 'hist': c['hist'], 'obs': steps}
+
+
+def scale_rows(base, layout, k):
+    """the big table of Trace_Order.ScRows: k copies of every base row, 'block' = the base k times over, 'each' = every row k times in a run"""
+    n = len(base)
+    src = [(p % n) if layout == 'block' else (p // k) for p in range(n * k)]
+    return [dict(base[i], id=["i", p + 1]) for p, i in enumerate(src)], src
+
+
+def dscale_obs(base, by, layout, k, reps):
+    """C2S beyond TLC's sizes: dictable.sort of a base pattern scaled up k times; the cmp of the key cells is observed between base rows only"""
+    ids = IdMap()
+    rows, src = scale_rows(base, layout, k)
+    cells = [{c: untag(r[c], ids) for c in ('a', 'b')} for r in base]      # one object per base cell: every copy of a row holds the same key objects
+    d = dictable(a=[cells[i]['a'] for i in src], b=[cells[i]['b'] for i in src], id=list(range(1, len(rows) + 1)))
+    o = {'kind': 'dscale', 'base': base, 'by': by, 'keycols': by, 'layout': layout, 'k': k, 'reps': reps, 'raised': '', 'out': [], 'again': True, 'same': True, 'after': [],
+         'basecmp': [[[safe_cmp(x[c], y[c]) if c != 'id' else 0 for c in by] for y in cells] for x in cells]}
+    try:
+        res = d.sort(*by)
+        o['out'] = proj_rows(res, ids)
+        for _ in range(reps - 1):      # the same call again and again on the one table object
+            if proj_rows(d.sort(*by), ids) != o['out']:
+                o['same'] = False
+        o['again'] = proj_rows(res.sort(*by), ids) == o['out']
+    except Exception as e:
+        o['raised'] = type(e).__name__
+    o['after'] = proj_rows(d, ids)
+    return o
+
+
+def sscale_obs(base, how, layout, k, reps):
+    ids = IdMap()
+    vals = [untag(t, ids) for t in base]
+    n = len(base)
+    xs = [vals[(p % n) if layout == 'block' else (p // k)] for p in range(n * k)]
+    o = {'kind': 'sscale', 'base': base, 'how': how, 'layout': layout, 'k': k, 'reps': reps, 'raised': '', 'out': [], 'same': True, 'after': [],
+         'basecmp': [[[safe_cmp(x, y)] for y in vals] for x in vals]}
+    try:
+        f = (lambda: sort(xs)) if how == 'sort' else (lambda: sorted(xs, key=Cmp))
+        out = f()
+        o['out'] = [tag(v, ids) for v in out]
+        for _ in range(reps - 1):
+            if [tag(v, ids) for v in f()] != o['out']:
+                o['same'] = False
+    except Exception as e:
+        o['raised'] = type(e).__name__
+    o['after'] = [tag(v, ids) for v in xs]
+    return o
 
 
 def short_step(st):
     keep = {'sort': ('src', 'by'), 'sortfn': ('src', 'fn'), 'sortval': ('src', 'ords'), 'listsort': ('lst', 'how'),
-            'setcol': ('src', 'col', 'how', 'pos'), 'setlst': ('lst',)}[st['op']]
+            'setcol': ('src', 'col', 'how', 'pos'), 'setlst': ('lst',), 'raise': ('how', 'src'), 'cmps': ()}[st['op']]
     return ' '.join([st['op']] + ['%s=%s' % (k, json.dumps(st[k], separators=(',', ':'))) for k in keep])
 
 
 def case_of(o, tags=None):
     if o['kind'] == 'session':
-        return {'op': 'session', 'seed': o['seed'], 'dup_in_order': o['dup'], 'steps': [short_step(st) for st in o['hist']],
+        return {'op': 'session', 'seed': o['seed'], 'dup_in_order': o['dup'], 'np': o.get('np', []), 'steps': [short_step(st) for st in o['hist']],
                 'ops': '+'.join(st['op'] for st in o['hist']), 'init': o['init'], 'hist': o['hist']}
     if o['kind'] == 'sort':
         return {'op': o['how'], 'xs': o['xs']}
     if o['kind'] == 'dsort':
         return {'op': 'dictable.sort', 'rows': o['rows'], 'by': o['by']}
+    if o['kind'] == 'dscale':
+        return {'op': 'dictable.sort scaled', 'base': o['base'], 'by': o['by'], 'layout': o['layout'], 'k': o['k'], 'reps': o['reps']}
+    if o['kind'] == 'sscale':
+        return {'op': 'sort scaled', 'base': o['base'], 'how': o['how'], 'layout': o['layout'], 'k': o['k'], 'reps': o['reps']}
     if o['kind'] == 'dsortval':
         return {'op': 'dictable.sort(**byval)', 'rows': o['rows'], 'orders': o['orders']}
     return {'op': 'cmp', 'i': o['i']}
@@ -263,7 +389,8 @@ def run(ctx):
     obs = []
     # --- cmp matrix, and a second one over dicts whose keys are not strings ---
     vals = universe()
-    mat_path, tags, M, rows = matrix_obs(ctx, vals)
+    set_universe(vals)
+    mat_path, tags, M, rows = matrix_obs(ctx, vals)      # recorded FIRST: the fresh process, before any call has raised
     obs += rows
     vals2 = universe2()
     mat2_path, tags2, M2, rows2 = matrix2_obs(ctx, vals2)
@@ -279,8 +406,14 @@ def run(ctx):
             seen.add(k); uniq.append(c)
     sessions = uniq
     sess_disagree = 0
+    raise_steps = raised_as_modelled = not_raised = 0
     for c in sessions:
         o = session_obs(c); obs.append(o)
+        for k, st in enumerate(c['hist']):
+            if st['op'] == 'raise':
+                raise_steps += 1
+                raised_as_modelled += o['obs'][k]['raised'] == c['exc'][k]
+                not_raised += o['obs'][k]['raised'] == ''
         last = o['obs'][-1]
         if [last['tabs'], last['lsts']] != [c['model']['tabs'], c['model']['lsts']]:
             sess_disagree += 1
@@ -288,6 +421,10 @@ def run(ctx):
         ctx.evals += len(c['hist'])
     ctx.sample({'s2c_session': {'seed': sessions[len(sessions) // 2]['seed'], 'steps': [short_step(st) for st in sessions[len(sessions) // 2]['hist']]}})
     ctx.extra['sessions'] = len(sessions)
+    ctx.extra['raising_steps'] = {'replayed': raise_steps, 'raised_the_class_OrderSess.ExcOf_names_(informational)': raised_as_modelled, 'did_not_raise': not_raised}
+    ctx.extra['sessions_raise_then_call'] = sum(1 for c in sessions if len(c['hist']) >= 2 and c['hist'][0]['op'] == 'raise')
+    if raise_steps and not_raised == raise_steps:
+        raise Machinery('vacuous: none of the %d raising steps of the sessions raised' % raise_steps)
     ctx.extra['session_final_heaps_differing_from_CmpModel_(informational; the trace spec judges)'] = sess_disagree
     # --- S2C: lists and tables enumerated by TLC ---
     gens = ['MC_Order_gen_lists3.cfg', 'MC_Order_gen_tuples2.cfg', 'MC_Order_gen_tables2.cfg', 'MC_Order_gen_big3.cfg'] if ctx.quick else \
@@ -357,6 +494,34 @@ def run(ctx):
             orders.append([c, vs])
         obs.append(dsortval_obs(rows, orders))
         ctx.note(('c2s', i))
+    # --- C2S beyond TLC's sizes: a small base pattern scaled up (Trace_Order: scaling law) ---
+    # keys that are equal under cmp and different objects / different dict keys: NaN objects, a date and the datetime of its day,
+    # 1 and 1.0 and True-free numbers; sizes around the usual thresholds (8..40, 65, 101, 257, 1025); repeated calls on one object
+    tie_pool = [["nan", 1], ["nan", 2], ["nan", 3], ["date", 730120], ["d", [730120, 0, 0]], ["d", [730120, 3600, 0]], ["date", 730121], ["d", [730121, 0, 0]],
+                ["i", 1], ["f", [1, 1]], ["i", 2], ["f", [5, 2]], ["n", 0], ["s", "a"], ["s", "b"]]
+    sizes = ([8, 12, 17, 24, 33, 40] * 8 + [65, 66, 70, 101] * 5 + [129, 257, 258] * 2 + [1025]) if ctx.quick else \
+            ([8, 12, 17, 24, 33, 40] * 40 + [65, 66, 70, 101, 129] * 20 + [257, 258, 513] * 8 + [1025, 1030, 2049] * 3)
+    scale_n = 0
+    for j, size in enumerate(sizes):
+        n = rng.choice([2, 2, 3, 4, 5, 6])
+        sub = rng.sample(tie_pool, rng.choice([2, 3, 4, 6]))
+        if j % 3 == 0:      # ties only: every key of the column is one of two or three objects that cmp ranks equal
+            sub = rng.choice([tie_pool[0:2], tie_pool[0:3], tie_pool[3:5], tie_pool[6:8], tie_pool[8:10], tie_pool[0:2] + tie_pool[3:5]])
+        base = [{'a': rng.choice(sub), 'b': rng.choice(sub), 'id': ["i", 0]} for _ in range(n)]
+        k = max(2, -(-size // n))
+        layout = rng.choice(['block', 'block', 'each'])
+        reps = rng.choice([1, 1, 2, 17, 65]) if size <= 70 else 1
+        obs.append(dscale_obs(base, rng.choice([['a'], ['b'], ['a', 'b'], ['b', 'a'], ['a', 'b', 'id'], ['b', 'id', 'a']]), layout, k, reps))
+        if j % 2 == 0:
+            vs = []
+            for t in [r['a'] for r in base] + [r['b'] for r in base]:
+                if t not in vs:
+                    vs.append(t)
+            obs.append(sscale_obs(vs, rng.choice(['sort', 'Cmp']), layout, max(2, -(-size // len(vs))), reps))
+        scale_n += 1
+        ctx.note(('scale', j))
+    ctx.extra['scaled_observations'] = {'tables_and_lists': scale_n, 'largest': max(sizes)}
+    ctx.sample({'c2s_scaled': {kk: obs[-1][kk] for kk in ('kind', 'base', 'layout', 'k', 'reps')}})
     ctx.evals += len(obs) + len(vals) ** 2 + len(vals2) ** 2
     bad = ctx.validate('Trace_Order', obs, env={'MAT_FILE': mat_path, 'MAT2_FILE': mat2_path})
     tags1, vals1, M1 = tags, vals, M
@@ -401,7 +566,15 @@ def replay(ctx, body):
     if c['op'] in ('sort', 'Cmp', 'sort_tuple', 'sort_iter', 'sort_array'): obs = [sort_obs(c['xs'], c['op'])]
     elif c['op'] == 'dictable.sort': obs = [dsort_obs(c['rows'], c['by'])]
     elif c['op'] == 'dictable.sort(**byval)': obs = [dsortval_obs(c['rows'], c['orders'])]
-    elif c['op'] == 'session': obs = [session_obs({'seed': c['seed'], 'dup': c['dup_in_order'], 'init': c['init'], 'hist': c['hist']})]
+    elif c['op'] == 'dictable.sort scaled': obs = [dscale_obs(c['base'], c['by'], c['layout'], c['k'], c['reps'])]
+    elif c['op'] == 'sort scaled': obs = [sscale_obs(c['base'], c['how'], c['layout'], c['k'], c['reps'])]
+    elif c['op'] == 'session':
+        set_universe(universe())
+        path, tags, M, rows = matrix_obs(ctx, UNI['vals'])      # the fresh matrix first, then the session
+        obs = [session_obs({'seed': c['seed'], 'dup': c['dup_in_order'], 'np': c.get('np', []), 'init': c['init'], 'hist': c['hist']})]
+        bad = ctx.validate('Trace_Order', obs, env={'MAT_FILE': path})
+        print('replay:', 'REJECTED %s' % bad if bad else 'accepted')
+        return 1 if bad else 0
     else:
         path, tags, M, rows = matrix_obs(ctx, universe()); path2, tags2, M2, rows2 = matrix2_obs(ctx, universe2())
         obs = rows if c.get('universe', 1) == 1 else rows2
